@@ -4,8 +4,10 @@ import (
 	"bytes"
 	"encoding/json"
 	"fmt"
+	"math/rand"
 	"net/http"
 	"sort"
+	"strings"
 	"time"
 
 	"verifharness/inproc"
@@ -203,13 +205,22 @@ func c15Query(r *core.Run, s *sim.Sim, sig string) {
 	for i := 0; i < 1+rng.Intn(2); i++ {
 		q = append(q, ent{refcrypto.BaseMul(client.RandScalar(rng)).Hex(), nil, "unknown"})
 	}
-	switch rng.Intn(4) {
+	switch rng.Intn(5) {
 	case 0:
 		q = append(q, ent{"zz", nil, "malformed"})
 	case 1:
 		q = append(q, ent{"02abcd", nil, "malformed"})
 	case 2:
 		q = append(q, ent{"", nil, "malformed"})
+	case 3:
+		// strings that are patterns to a storage layer, built from a Y the mint knows in another state
+		var known string
+		for _, e := range q {
+			if e.coin != nil && e.coin.State != sim.Unspent {
+				known = e.y
+			}
+		}
+		q = append(q, ent{c15Pattern(rng, known), nil, "malformed-pattern"})
 	}
 	rng.Shuffle(len(q), func(i, j int) { q[i], q[j] = q[j], q[i] })
 	ys := make([]string, len(q))
@@ -290,8 +301,15 @@ func c15Query(r *core.Run, s *sim.Sim, sig string) {
 			rq = append(rq, rent{cashu.BlindedMessage{B_: b, Id: s.E.Active().Id, Amount: 1}, nil, "submitted-in-refused-request"})
 		}
 	}
-	if rng.Intn(3) == 0 {
+	switch rng.Intn(4) {
+	case 0:
 		rq = append(rq, rent{cashu.BlindedMessage{B_: "zz", Id: s.E.Active().Id}, nil, "malformed"})
+	case 1:
+		known := ""
+		if len(s.SigOrder) > 0 {
+			known = s.SigOrder[rng.Intn(len(s.SigOrder))]
+		}
+		rq = append(rq, rent{cashu.BlindedMessage{B_: c15Pattern(rng, known), Id: s.E.Active().Id, Amount: 1}, nil, "malformed-pattern"})
 	}
 	rng.Shuffle(len(rq), func(i, j int) { rq[i], rq[j] = rq[j], rq[i] })
 	bms := make(cashu.BlindedMessages, len(rq))
@@ -334,6 +352,30 @@ func c15Query(r *core.Run, s *sim.Sim, sig string) {
 	if s.NOps%37 == 0 {
 		r.Sample("query", map[string]any{"case": csig, "Ys": ys, "restore_B_": len(bms)})
 	}
+}
+
+// c15Pattern returns a string that is not a point but would match stored values if a storage
+// layer took it for a pattern (SQL LIKE / GLOB wildcards), built from a value the mint knows.
+func c15Pattern(rng *rand.Rand, known string) string {
+	if len(known) < 10 {
+		return []string{"%", "_", "02%", "*", "0?%"}[rng.Intn(5)]
+	}
+	i := 2 + rng.Intn(len(known)-4)
+	switch rng.Intn(7) {
+	case 0:
+		return "%"
+	case 1:
+		return known[:i] + "_" + known[i+1:]
+	case 2:
+		return known[:i] + "%"
+	case 3:
+		return "%" + known[i:]
+	case 4:
+		return strings.Repeat("_", len(known))
+	case 5:
+		return known[:i] + "*"
+	}
+	return known[:i] + "?" + known[i+1:]
 }
 
 func cmpWord(a, b int) string {
